@@ -27,24 +27,15 @@ def acc(kind, names):
 
 def coq_case(c):
     cfg = c["cfg"]
-    emb = ec.cbl(EMB_NAMES)
-    return ("{| k_main := %s; k_personal := %s; k_cfg := {| r_attempts := %s; r_base := (%d # 1); r_max := (%d # 1); r_factor := (%d # %d) |}; k_embedded := %s; "
+    emb = ec.cbl(c.get("embedded") or [])
+    return ("{| k_main := %s; k_personal := %s; k_cfg := {| r_attempts := %s; r_base := (%d # 1); r_max := (%d # 1); r_factor := (%d # %d) |}; k_embedded := %s; k_minimal := %s; "
             "k_main_kind := \"%s\"; k_nil := %s; k_err := %s; k_db := %s; k_attempts := %s; k_gaps := %s; k_delays := %s; k_searched := %s |}") % (
         acc(c["main"], ["git status", "ls -la", "df -h"]), acc(c["personal"], ["my cmd"]), core.cz(cfg["max_attempts"]), cfg["base_ns"], cfg["max_ns"],
-        cfg["factor_num"], cfg["factor_den"], emb, c["main"], core.cbool(c["nil_db"]), core.cbool(c["err"]), ec.cbl(c.get("first")),
+        cfg["factor_num"], cfg["factor_den"], emb, ec.cbl(c.get("minimal") or []), c["main"], core.cbool(c["nil_db"]), core.cbool(c["err"]), ec.cbl(c.get("first")),
         core.cz(c["attempts"]), core.clist([core.cz(x) for x in (c.get("gaps_ns") or [])]), core.clist([core.cz(x) for x in (c.get("delays") or [])]), core.cbool(c["searched"]))
 
 
-EMB_NAMES = []
-
-
 def preamble(cases):
-    # the embedded fallback list, as the code returns it when everything is missing
-    global EMB_NAMES
-    for c in cases:
-        if c["main"] == "missing" and not c["nil_db"] and c.get("first"):
-            EMB_NAMES = c["first"]
-            break
     return ""
 
 
